@@ -308,4 +308,5 @@ def candidates(case):
 FINDING_ABLATIONS = {
     "F19": (H.pre_unify_flip, H.abl_unify_flip),
     "F20": (H.pre_userfn, H.ablate_userfns),
+    "F28": (H.pre_masked_unoptimized, H.abl_unmask),
 }
